@@ -27,7 +27,9 @@ RULE = (
     "interface; every reading op; every upward op; restrict(flag=False)}. Oracle: derived acl is a superset of the "
     "start's; read_only => every mutating op raises and the raw tree is unchanged; skel_only => every reading op "
     "raises; local_only => nothing above the local root is ever yielded; flags cannot be cleared; unrestricted "
-    "control runs of the same chains must succeed (non-vacuity). Non-trivial = chain length >=1 ending in an op that "
+    "control runs of the same chains must succeed (non-vacuity). The fixture also holds (HDF5 driver) a dimension scale "
+    "outside /g attached to g/d2 and a named datatype in g/h; read ops include arithmetic / comparison operators (the "
+    "answer must not depend on the contents) and comparison of attribute sets. Non-trivial = chain length >=1 ending in an op that "
     "succeeds on the unrestricted control; distinct by (start, flags, chain, op)"
 )
 ASSUMPTIONS = ["restrictions are documented as soft: __wrapped__ and h5py-only members outside util/types.py are not asserted"]
